@@ -1,4 +1,5 @@
 #![allow(dead_code)]
+mod alloc;
 mod gens;
 mod layout;
 mod model;
@@ -10,6 +11,9 @@ mod runner;
 mod selftest;
 mod stream;
 mod util;
+
+#[global_allocator]
+static GLOBAL: alloc::Recorder = alloc::Recorder;
 
 use props::Tier;
 use serde_json::{json, Value};
